@@ -15,7 +15,11 @@ import (
 	"golang.org/x/tools/go/ssa/ssautil"
 )
 
-const modPath = "github.com/gebn/bmc"
+// modPath is the module under analysis (a variable so that the self-test can
+// point the engines at the fixture module).
+var modPath = "github.com/gebn/bmc"
+
+var minModulePackages = 8
 
 // Ctx is the loaded, type-checked program plus lookup helpers. Everything a
 // rule looks at comes from here; nothing is executed.
@@ -74,8 +78,8 @@ func loadRepo(dir, tier, arch string) (*Ctx, error) {
 			nmod++
 		}
 	}
-	if nmod < 8 {
-		return nil, fmt.Errorf("only %d module packages loaded (expected >= 8)", nmod)
+	if nmod < minModulePackages {
+		return nil, fmt.Errorf("only %d module packages loaded (expected >= %d)", nmod, minModulePackages)
 	}
 	c.All = ssautil.AllFunctions(prog)
 	for fn := range c.All {
